@@ -32,6 +32,10 @@ theorem C15_gen_ortho_pairs :
 theorem C15_gen_repeat_box_amount : BiotiteModel.Gen.C15.repeatBoxPassesAmount = true := by
   decide
 
+/-- the round-off clean-up of `vectors_from_unitcell` is not scaled by the sum of the cell lengths. -/
+theorem C15_gen_unitcell_tolerance : BiotiteModel.Gen.C15.unitcellTolUsesSum = false := by
+  decide
+
 /-! ## Rigid-motion invariance (polynomial identities over any commutative ring) -/
 
 section Rigid
@@ -220,5 +224,54 @@ example : ∃ ys, removePbcFromCoord K [⟨1, 1, 1⟩, ⟨15, 1, 1⟩, ⟨-2, 9,
   have hd : tricEx.det ≠ 0 := by simp only [M3.det, triple, V3.dot, V3.cross, tricEx]; norm_num
   obtain ⟨ys, h, hl, -⟩ := C15_remove_pbc_lattice [⟨1, 1, 1⟩, ⟨15, 1, 1⟩, ⟨-2, 9, 1⟩] tricEx hd
   exact ⟨ys, h, by simpa using hl.length_eq.symm⟩
+
+/-- The bonded-atoms clause for what the code does: after `remove_pbc_from_coord` every pair of ARRAY
+neighbours is at its minimum image — its difference vector is the shortest of all its periodic images —
+for orthorhombic boxes always, for triclinic boxes whenever every neighbour pair has an image shorter
+than half of each box height.  The per-molecule translation of `remove_pbc` (centroid into the box)
+does not change this. -/
+theorem C15_remove_pbc_consecutive_min_image (xs : List Vec) (b : Box) (hdet : b.det ≠ 0)
+    (h : OrthoBox b ∨ (isOrthogonal K b = false ∧
+      ∀ d ∈ pairDiffs xs, ∃ i j k : Int, Short b (d.add (vecMul (ofInts i j k) b)))) :
+    ∃ ys, removePbcFromCoord K xs b = .ok ys ∧ ys.length = xs.length ∧
+      (∀ e ∈ pairDiffs ys, SelfMin b e) ∧
+      ∀ t : Vec, ∀ e ∈ pairDiffs (ys.map (fun p => p.add t)), SelfMin b e :=
+  removePbc_consecutive C15_gen_consts xs b hdet h
+
+example : ∃ ys, removePbcFromCoord K [⟨1, 1, 1⟩, ⟨15, 1, 1⟩, ⟨-2, 9, 1⟩] orthoEx = .ok ys ∧
+    ∀ e ∈ pairDiffs ys, SelfMin orthoEx e := by
+  have hd : orthoEx.det ≠ 0 ∧ OrthoBox orthoEx := by
+    simp only [OrthoBox, M3.det, triple, V3.dot, V3.cross, orthoEx]; norm_num
+  obtain ⟨ys, h, -, hm, -⟩ := C15_remove_pbc_consecutive_min_image [⟨1, 1, 1⟩, ⟨15, 1, 1⟩, ⟨-2, 9, 1⟩] orthoEx hd.1 (.inl hd.2)
+  exact ⟨ys, h, hm⟩
+
+/-! ## Unit cell ↔ box vectors (partial: algebraic core only) -/
+
+/-- `unitcell_from_vectors ∘ vectors_from_unitcell = id` up to the transcendental functions: over any
+field, if the numbers used for `sin γ` and `c_z` satisfy `sin²γ = 1 − cos²γ`, `sin γ ≠ 0` and
+`c_z² = c² − c_x² − c_y²`, the box has squared vector lengths `a², b², c²` and dot products
+`bc·cos α, ac·cos β, ab·cos γ` — exactly what `unitcell_from_vectors` takes `sqrt` / `arccos` of.
+NOT covered: `cos`/`sin`/`sqrt`/`arccos` themselves, float rounding, the zeroing of round-off. -/
+theorem C15_unitcell_inverse_partial {F : Type} [Field F] (la lb lc ca cb cg sg cz : F) (hsg : sg ≠ 0)
+    (hs : sg * sg = 1 - cg * cg)
+    (hz : cz * cz = lc * lc - (lc * cb) * (lc * cb) - (lc * (ca - cb * cg) / sg) * (lc * (ca - cb * cg) / sg)) :
+    cellSqFromVectors (vectorsFromCell la lb lc ca cb cg sg cz) =
+      ⟨la * la, lb * lb, lc * lc, lb * lc * ca, la * lc * cb, la * lb * cg⟩ :=
+  cellSq_vectorsFromCell la lb lc ca cb cg sg cz hsg hs hz
+
+/-- Exact sub-case, orthorhombic cells (all angles 90°): the box is `diag(a, b, c)` and the way back gives
+the three lengths and three right angles. -/
+theorem C15_unitcell_inverse_ortho (la lb lc : Rat) :
+    vectorsFromCell90 la lb lc = ⟨⟨la, 0, 0⟩, ⟨0, lb, 0⟩, ⟨0, 0, lc⟩⟩ ∧
+    cellSqFromVectors (vectorsFromCell90 la lb lc) = ⟨la * la, lb * lb, lc * lc, 0, 0, 0⟩ := by
+  constructor
+  · simp [vectorsFromCell90, vectorsFromCell]
+  · simp [vectorsFromCell90, vectorsFromCell, cellSqFromVectors, V3.dot]
+
+-- non-vacuity: cos γ = 3/5, sin γ = 4/5, cos β = 3/5, cos α = 9/25, c = 1, c_z = 4/5
+example : cellSqFromVectors (vectorsFromCell (2 : Rat) 3 1 (9/25) (3/5) (3/5) (4/5) (4/5)) =
+    ⟨4, 9, 1, 3 * 1 * (9/25), 2 * 1 * (3/5), 2 * 3 * (3/5)⟩ := by
+  have := C15_unitcell_inverse_partial (2 : Rat) 3 1 (9/25) (3/5) (3/5) (4/5) (4/5) (by norm_num) (by norm_num) (by norm_num)
+  rw [this]; norm_num
 
 end BiotiteModel.C15
